@@ -183,8 +183,13 @@ def _line_infinite_cylinder_intersection(a, b, r, n):
     '''
     nxa = sc.cross(n, a)
     nxa_square = sc.dot(nxa, nxa)
-    parallel_to_cylinder = nxa_square == sc.scalar(0.0, unit=nxa.unit)
-    s2 = nxa_square * r**2 - sc.dot(b, nxa) ** 2
+    # For a direction within sqrt(eps) of the axis direction (e.g. equal to it up to
+    # rounding) nxa consists of rounding errors; treat the line as parallel.
+    parallel_to_cylinder = nxa_square < sc.scalar(np.finfo(float).eps, unit=nxa.unit)
+    # Use the component of b perpendicular to the axis: the rounding errors in nxa are
+    # not perpendicular to a and would otherwise pick up the axial component of b.
+    b_perp = b - sc.dot(b, a) * a
+    s2 = nxa_square * r**2 - sc.dot(b_perp, nxa) ** 2
     s = sc.sqrt(s2)
     m = sc.dot(nxa, sc.cross(b, a))
     intersection = s2 >= sc.scalar(0.0, unit=s2.unit)
@@ -196,7 +201,7 @@ def _line_infinite_cylinder_intersection(a, b, r, n):
     right = sc.where(
         parallel_to_cylinder, sc.scalar(float('inf'), unit=m.unit), (m + s) / nxa_square
     )
-    origin_in_cylinder = sc.norm(b - sc.dot(b, a) * a) <= r
+    origin_in_cylinder = sc.norm(b_perp) <= r
     return (
         sc.where(parallel_to_cylinder, origin_in_cylinder, intersection),
         left,
